@@ -467,7 +467,7 @@ class SymReal:
         if numfmt.active() and not _in_raise_or_warn():
             return numfmt.round_to(s, 0 if nd is None else nd)
         if in_message_context():
-            return 0.0
+            return 1.0  # placeholder (log10 of it is finite)
         raise Inconclusive("concretisation", "round() of %s" % _where())
 
     # numpy-scalar look-alikes
@@ -800,9 +800,11 @@ class Engine:
         self.max_depth = max_depth
         self.symbolic_consts = False
         self.nfresh = 0
+        self.unknown_budget = 3  # undecided branch sides that are explored anyway (per scenario)
 
     # -- per path state
     def _reset(self, decisions, model):
+        self.on_unknown_path = any(tuple(decisions[: len(p_)]) == p_ for p_ in getattr(self, "unknown_prefixes", ()))
         self.decisions = decisions
         self.pos = 0
         self.pc = []
@@ -897,6 +899,11 @@ class Engine:
         if r == "unsat":
             raise Infeasible()
         if r == "unknown":
+            if getattr(self, "on_unknown_path", False):
+                # the path itself is of undecided feasibility (explored on the unknown-side budget): keep collecting;
+                # the path sample at its end decides whether it is a real path
+                self.model = None
+                return
             raise Inconclusive("assume-feasibility-unknown", str(s)[:200])
         self.model = m
 
@@ -944,6 +951,12 @@ class Engine:
             rf, mf = self._check([z3.Not(cond)])
         if rt == "unknown" and rf == "unknown":
             raise Inconclusive("branch-feasibility-unknown", "%s at %s" % (str(c)[:160], _where()))
+        if getattr(self, "on_unknown_path", False) and "unknown" in (rt, rf) and "sat" not in (rt, rf):
+            # one side refuted, the other undecided, on a path of undecided feasibility: follow the undecided side
+            if rt == "unknown":
+                rt, mt = "sat", None
+            else:
+                rf, mf = "sat", None
         if "unknown" in (rt, rf):
             other = rf if rt == "unknown" else rt
             if other == "unsat":
@@ -956,7 +969,14 @@ class Engine:
             else:
                 # one side is known feasible, the other could not be decided: follow the feasible side and report
                 # the other one as an unexplored (inconclusive) path instead of losing both
-                self.unknown_sides.append("%s side of %s at %s" % ("False" if rf == "unknown" else "True", str(c)[:120], _where()))
+                if getattr(self, "unknown_budget", 0) > 0:
+                    # explore the undecided side as well (a few per scenario): whether it is a real path is settled at
+                    # its end by the path sample (solver, or solver with the declared inputs pinned to simple values)
+                    self.unknown_budget -= 1
+                    self.stack.append((self.decisions[: self.pos] + [rt == "unknown"], None))
+                    self.__dict__.setdefault("unknown_prefixes", set()).add(tuple(self.decisions[: self.pos] + [rt == "unknown"]))
+                else:
+                    self.unknown_sides.append("%s side of %s at %s" % ("False" if rf == "unknown" else "True", str(c)[:120], _where()))
                 if rt == "unknown":
                     rt = "unsat"
                 else:
